@@ -51,7 +51,8 @@ def emitJson (v : SpecVal) : Json :=
     ("order", Json.arr (v.order.map (fun k => Json.arr #[toJson k.name,
         match k.ordered with
         | none => Json.null
-        | some (d, nf) => Json.arr #[toJson d, match nf with | none => Json.null | some b => toJson b]])).toArray),
+        | some (d, nf) => Json.arr #[toJson d, match nf with | none => Json.null | some b => toJson b],
+        toJson k.aliased])).toArray),
     ("frame", match v.frame with
       | none => Json.null
       | some (k, f) => Json.arr #[toJson k, rawValueJson f.start, optStr f.startSide, rawValueJson f.end_, optStr f.endSide])]
@@ -60,25 +61,32 @@ def ratioJson : Option (Int × Nat) → Json
   | none => Json.null
   | some (a, b) => Json.mkObj [("q", Json.arr #[toJson a, toJson b])]
 
-/-- the table with the window column appended, between the optional filters -/
+/-- the table with the window column appended, between the optional filters; expression order keys are
+    evaluated as computed columns (`extend`) and projected away again -/
 def evalSide (c : Case) (w : WinDef) (checkOverflow : Bool) : Json :=
   let T1 : Table := match c.pre with | none => c.table | some p => c.table.filter p
-  if checkOverflow && engineOverflows T1 w then Json.mkObj [("err", toJson "overflow")] else
+  if !keysFresh T1 c.ops then Json.mkObj [("err", toJson "bad-input: computed key column name is not fresh")] else
+  let T1x := extend T1 (keyCols c.ops)
+  let n := T1.cols.length
+  let k := (keyCols c.ops).length
+  let strip : Row → Row := fun r => r.take n ++ r.drop (n + k)
+  if checkOverflow && engineOverflows T1x w then Json.mkObj [("err", toJson "overflow")] else
   let cols := T1.cols ++ [c.name]
   match c.fn, c.rfn with
   | some fn, _ =>
-    let T2 := withWindowColumn T1 c.name w fn
+    let T2 := withWindowColumn T1x c.name w fn
     let T3 : Table := match c.post with | none => T2 | some p => T2.filter p
-    Json.mkObj [("cols", toJson cols), ("rows", Json.arr (T3.rows.map (fun r => Json.arr (r.map Val.toPlain).toArray)).toArray)]
+    Json.mkObj [("cols", toJson cols), ("rows", Json.arr (T3.rows.map (fun r => Json.arr ((strip r).map Val.toPlain).toArray)).toArray)]
   | none, some rfn =>
-    let vs := ratioColumn T1 w rfn
+    let vs := ratioColumn T1x w rfn
     let rows := List.zipWith (fun r v => Json.arr ((r.map Val.toPlain) ++ [ratioJson v]).toArray) T1.rows vs
     Json.mkObj [("cols", toJson cols), ("rows", Json.arr rows.toArray)]
   | none, none => Json.mkObj [("err", toJson "no function")]
 
 def handleCase (c : Case) : String :=
   let v := emit c.ops
-  let model := if builderRaises genFlags c.ops then Json.mkObj [("err", toJson "IndexError")] else match engineDef v with
+  let model := if builderRaises genFlags c.ops then Json.mkObj [("err", toJson "IndexError")]
+    else if clauseRejected v then Json.mkObj [("err", toJson "engine-rejects")] else match engineDef v with
     | none => Json.mkObj [("err", toJson "engine-rejects")]
     | some w => evalSide c w true
   let sd := sparkDef c.ops
@@ -93,7 +101,8 @@ def handleCase (c : Case) : String :=
         | none => false)
     | none, _ => false
   let T1 : Table := match c.pre with | none => c.table | some p => c.table.filter p
-  let uniq := match sd with | some w => orderUnique T1.cols w T1.rows | none => false
+  let T1x := extend T1 (keyCols c.ops)
+  let uniq := match sd with | some w => orderUnique T1x.cols w T1x.rows | none => false
   Json.compress (Json.mkObj [
     ("case", toJson c.case),
     ("emit", emitJson v),
@@ -126,13 +135,15 @@ def handleGen (n : Nat) : String :=
       ("currentRow", toJson currentRow), ("sys.maxsize", toJson sysMaxsize)]),
     ("ordered", Json.mkObj (orderedTable.map (fun p => (p.1, ordJson p.2)))),
     ("kinds", Json.mkObj [("rowsBetween", toJson (rowsBetweenFrame 0 0).1), ("rangeBetween", toJson (rangeBetweenFrame 0 0).1)]),
-    ("bareWrap", match orderByBareWrap with | none => Json.null | some v => ordJson v),
+    ("columnWrap", match orderByColumnWrap with | none => Json.null | some v => ordJson v),
+    ("exprWrap", match orderByExprWrap with | none => Json.null | some v => ordJson v),
     ("flags", Json.mkObj [
       ("partitionByCopies", toJson partitionByCopies), ("orderByCopies", toJson orderByCopies),
       ("rowsBetweenCopies", toJson rowsBetweenCopies), ("rangeBetweenCopies", toJson rangeBetweenCopies),
       ("overCopies", toJson overCopies),
       ("partitionByExtends", toJson partitionByExtends), ("orderByExtends", toJson orderByExtends),
-      ("partitionByIndexesFirst", toJson partitionByIndexesFirst), ("orderByIndexesFirst", toJson orderByIndexesFirst)]),
+      ("partitionByIndexesFirst", toJson partitionByIndexesFirst), ("orderByIndexesFirst", toJson orderByIndexesFirst),
+      ("partitionByKeepsAlias", toJson partitionByKeepsAlias), ("orderByKeepsAlias", toJson orderByKeepsAlias)]),
     ("pyspark", Json.mkObj [("longMin", toJson longMin), ("longMax", toJson longMax), ("edgeStart", toJson edgeStart)])])
 
 def handle (line : String) : String :=
